@@ -125,11 +125,11 @@ def sensitivity(args):
             prefix = "tmp-selftest-%s-" % name
             rc, replays, out = _check(d, "quick", None, args.seed, prefix)
             rec["quick"] = {"exit": rc, "violations": len(replays)}
-            found_by = "quick" if rc == 1 else None
+            found_by = "quick" if (rc == 1 and replays) else None
             if rc != 1 and not args.quick_only:
                 rc, replays, out = _check(d, "thorough", args.thorough_runs, args.seed, prefix)
                 rec["thorough_%d" % args.thorough_runs] = {"exit": rc, "violations": len(replays)}
-                found_by = "thorough" if rc == 1 else None
+                found_by = "thorough" if (rc == 1 and replays) else None
             rec["detected_by"] = found_by
             if replays:
                 rows = []
